@@ -3,7 +3,8 @@ import numpy as np
 
 from .read import SgzReader
 from .version import SeismicZfpVersion
-from .utils import pad, int_to_bytes, np_float_to_bytes, np_float_to_bytes_signed, coord_to_index
+from .utils import (pad, int_to_bytes, np_float_to_bytes, np_float_to_bytes_signed, coord_to_index,
+                    bytes_to_double, double_to_bytes)
 from .sgzconstants import DISK_BLOCK_BYTES, SEGY_TEXT_HEADER_BYTES
 
 
@@ -84,7 +85,11 @@ class SgzCropper(SgzReader):
         header[4:8] = int_to_bytes(len_zslices)
         header[8:12] = int_to_bytes(len_xlines)
         header[12:16] = int_to_bytes(len_ilines)
-        header[16:20] = np_float_to_bytes_signed(np.int32(self.zslices[zslices_index_range[0]]))
+        first_sample = self.zslices[zslices_index_range[0]]
+        header[16:20] = np_float_to_bytes_signed(np.int32(first_sample))
+        if bytes_to_double(self.headerbytes[92:100]) != 0:
+            # The float64 first-sample field takes precedence in the reader: it has to follow the crop too
+            header[84:92] = double_to_bytes(first_sample)
         header[20:24] = np_float_to_bytes_signed(np.int32(self.xlines[xline_index_range[0]]))
         header[24:28] = np_float_to_bytes_signed(np.int32(self.ilines[iline_index_range[0]]))
         header[56:60] = int_to_bytes(compressed_data_length_diskblocks)
